@@ -14,12 +14,14 @@
 (*        "count"  : one Sweep, a pipeline of a fixed family -> count_sweep                     *)
 (*                                                                         *)
 (* Universe parameters: MinKeys..MaxKeys item keys (in total over the      *)
-(* operands of a case), value lists of length 0..MaxLen over NVals values  *)
-(* per key (at most MaxEmpty of them empty), either all such lists (Lists = "all") or one representative    *)
-(* per renaming of the values within a key (Lists = "canon": sweep.py      *)
-(* never inspects a value); dims = None and every ordered set partition of *)
-(* the keys, singleton groups written "k" or ("k",); constants / derivers  *)
-(* / exclude per Opts.  Shard/NShards split the universe over processes.   *)
+(* operands of a case); value lists of length 0..MaxLen over NVals values  *)
+(* per key, at most MaxEmpty of them empty; either all such lists          *)
+(* (Lists = "all") or one representative per renaming of the values within *)
+(* a key (Lists = "canon": sweep.py never inspects a value); dims = None   *)
+(* and every ordered set partition of the keys, singleton groups written   *)
+(* "k" or ("k",); constants / derivers / exclude per Opts ("none", "two",  *)
+(* "few", "some", "full", "ders2", "ders": see OptTriples).                *)
+(* Shard/NShards split the universe over processes.                        *)
 (***************************************************************************)
 EXTENDS Sweep, Json
 CONSTANTS Mode, MinKeys, MaxKeys, MaxLen, MaxEmpty, NVals, Lists, Opts, NOps, Shard, NShards
